@@ -474,7 +474,8 @@ def main(argv):
         if 'em' not in r:
             continue
         obs = obligations_of(r, prop)
-        all_obs += [dict(o, unit=r['unit']) for o in obs]
+        seen_ids = {o['id'] for o in all_obs}
+        all_obs += [dict(o, unit=r['unit']) for o in obs if o['id'] not in seen_ids]
         for o in obs:
             fns.add(short_fn(o['fn']))
         for k, v in failed_ids(r, prop).items():
